@@ -1,7 +1,11 @@
 """C15 — correlograms count exactly the spike pairs in each lag bin (DESIGN.md §5 C15)."""
+import functools
 import itertools
+import math
+from fractions import Fraction
 import numpy as np
 from . import common as C
+from . import dense_common as DC
 
 PID = 'C15'
 PARALLEL = False
@@ -9,14 +13,18 @@ BATCH = 3000
 BUDGET_S = {'quick': 70, 'thorough': 900}
 RULE = ('exhaustive: all sorted trains of length <= L on a small time grid (equal times included) x '
         'labelings over <= 3 clusters x cluster-id lists in every order incl. ids without spikes x '
-        '(bin, half-window) grid x symmetrize on/off; then random long trains. non-trivial = at '
+        '(bin, half-window) grid x symmetrize on/off, windows that are odd, even and fractional multiples of the bin, '
+        'bins that are a whole or a fractional number of samples, negative times; then random long trains; the '
+        'helpers _increment / _diff_shifted / _create_correlograms_array on small arrays; firing_rate with '
+        'cluster_ids given or None, durations 0 / None / dyadic / non-dyadic. non-trivial = at '
         'least one spike pair inside the window (model array has a non-zero entry)')
 ASSUMPTIONS = [
-    'float -> sample conversion ((times*rate).astype(int64), int(rate*bin), 2*int(.5*window/bin)+1) is '
-    'performed by the real code; the harness only generates inputs for which it verifies these '
-    'expressions are exact, and passes integer samples/bin/half to the model',
-    'firing_rate: integer outer product modelled; the final multiplication by bin_size/duration is '
-    'one float operation replicated by the harness',
+    'float -> sample conversion ((times*rate).astype(int64), int(rate*clip(bin)), 2*int(.5*clip(window)/clip(bin))+1) is '
+    'MODELLED in Lean over exact rationals (Model/C15b.lean); the harness only generates inputs for which it verifies '
+    'with exact fractions that every float operation of these expressions is exact (or, for the one division, that '
+    'rounding does not cross an integer), and passes the exact rational values of the floats to the model',
+    'firing_rate: the model computes count_i*count_j*bin/duration as a rational; compared exactly when the two float '
+    'operations of the code are exact on the input, with the DESIGN §3 tolerance 2^-40 (relative) otherwise',
 ]
 
 
@@ -26,20 +34,43 @@ def _prep(case):
     times = T / r
     if case.get('tdtype'):
         times = times.astype(case['tdtype'])         # e.g. float32 spike times (exactly representable ones only, see exact())
-    bin_size = case['bin'] / r
-    window = (2 * case['half'] + 1) * bin_size
+    # bin: `bin` samples, optionally plus a fraction of a sample (the code truncates rate*bin_size)
+    bin_size = (case['bin'] + case.get('binfrac', 0.)) / r
+    # window: (2*half+1) bins by default; `wmult` gives another multiple of the bin with the same half window
+    window = case.get('wmult', 2 * case['half'] + 1) * bin_size
     return r, T, times, bin_size, window
 
 
+@functools.lru_cache(maxsize=1 << 16)
+def _fr(x):
+    return Fraction(x)
+
+
+@functools.lru_cache(maxsize=1 << 16)
+def _frac(x):
+    return DC.frac(x)
+
+
+def _is_float(fr):
+    return Fraction(float(fr)) == fr
+
+
 def exact(case):
-    """the harness-side verification that the float conversions are exact for this input"""
+    """the harness-side verification (exact fractions) that on this input the float conversions of the code give the
+    integers the exact rational computation gives: each float product / quotient is either exact or its rounding does
+    not cross an integer"""
     r, T, times, bin_size, window = _prep(case)
-    if len(T) and not (np.array_equal((times.astype(np.float64) * r).astype(np.int64), T) and
-                       np.array_equal(times.astype(np.float64) * r, T.astype(np.float64))):
+    fr = _fr(r)
+    for t, s in zip(times.tolist(), T.tolist()):
+        if math.trunc(_fr(t) * fr) != s or int(t * r) != s:
+            return False
+    if not (1e-5 <= bin_size <= 1e5 and 1e-5 <= window <= 1e5):            # clip is the identity
         return False
-    b = np.clip(bin_size, 1e-5, 1e5)
-    w = np.clip(window, 1e-5, 1e5)
-    return int(r * b) == case['bin'] and 2 * int(.5 * w / b) + 1 == 2 * case['half'] + 1
+    fb, fw = _fr(float(bin_size)), _fr(float(window))
+    if not (int(r * float(bin_size)) == math.trunc(fr * fb) == case['bin']):
+        return False
+    q = fw / 2 / fb                                                         # .5*window is exact; one division
+    return int(float(.5 * window / bin_size)) == int(q) == case['half']
 
 
 def impl(case):
@@ -62,7 +93,9 @@ def impl(case):
                 correlograms(times, sc, cluster_ids=ids, sample_rate=r, bin_size=bin_size,
                              window_size=window, symmetrize=case['sym'])
                 ids[:] = want
-        keep = (times.copy(), sc.copy(), None if ids is None else list(ids))
+        if case.get('timeskind') == 'list':      # spike times given as a plain list
+            times = times.tolist()
+        keep = (list(times) if isinstance(times, list) else times.copy(), sc.copy(), None if ids is None else list(ids))
         out = correlograms(times, sc, cluster_ids=ids, sample_rate=r, bin_size=bin_size,
                            window_size=window, symmetrize=case['sym'])
         res = dict(arr=out.tolist(), shape=list(out.shape))
@@ -81,14 +114,44 @@ def impl(case):
             ids = [c + base for c in ids]
         out = firing_rate(sc, cluster_ids=ids, bin_size=case['bs'], duration=case['dur'])
         return dict(arr=np.asarray(out).tolist())
+    if case['op'] in ('increment', 'diff_shifted', 'create'):
+        # the helpers named in the property's anchors; a refactoring that removes one is not an alarm
+        import phylib.stats.ccg as ccg
+        name = {'increment': '_increment', 'diff_shifted': '_diff_shifted', 'create': '_create_correlograms_array'}[case['op']]
+        fn = getattr(ccg, name, None)
+        if fn is None:
+            return dict(missing=name)
+        try:
+            if case['op'] == 'increment':
+                out = fn(np.array(case['arr'], dtype=np.int64), np.array(case['idx'], dtype=np.int64))
+            elif case['op'] == 'diff_shifted':
+                out = fn(np.array(case['arr'], dtype=np.int64), case['steps'])
+            else:
+                out = fn(case['nc'], case['winsize'])
+        except ValueError as e:
+            return dict(valueerror=str(e)[:80])
+        return dict(arr=np.asarray(out).tolist())
     raise ValueError(case['op'])
 
 
 def model_query(case, impl_res):
-    q = {k: v for k, v in case.items() if not k.startswith('_') and k not in ('rate', 'dtype', 'bs', 'dur', 'idbase', 'idskind', 'tdtype', 'pre_ids')}
-    if case['op'] == 'ccg' and len(case['t']) <= 8:
-        q['spec'] = 1
-    return q
+    if case['op'] == 'ccg':
+        r, T, times, bin_size, window = _prep(case)
+        q = dict(p=PID, op='ccg_q', times=[_frac(t) for t in times.tolist()], sc=case['sc'], rate=_frac(r),
+                 bin_size=_frac(float(bin_size)), window=_frac(float(window)), sym=case['sym'])
+        if case.get('ids') is not None:
+            q['ids'] = case['ids']
+        if len(case['t']) <= 8:
+            q['spec'] = 1
+        return q
+    if case['op'] == 'firing':
+        q = dict(p=PID, op='firing_q', sc=case['sc'], bin_size=DC.frac(case['bs']))
+        if case.get('ids') is not None:
+            q['ids'] = case['ids']
+        if case['dur'] is not None:
+            q['duration'] = DC.frac(case['dur'])
+        return q
+    return {k: v for k, v in case.items() if not k.startswith('_')}
 
 
 def oracle_ccg(case):
@@ -120,6 +183,19 @@ def judge(case, impl_res, ans):
     if 'err' in ans:
         return 'MACHINERY: driver error %s' % ans['err']
     m = ans['ok']
+    if case['op'] in ('increment', 'diff_shifted', 'create'):
+        # helper level: the Lean definition against the real helper (None = the helper raises ValueError)
+        if 'raised' in impl_res:
+            return 'CORR: helper raised %s (%s)' % (impl_res['raised'], impl_res['msg'])
+        ok = impl_res['ok']
+        if 'missing' in ok:
+            return None
+        real = None if 'valueerror' in ok else ok['arr']
+        if case.get('ood'):
+            return None       # outside the loop's domain (steps > len): tallied only
+        if real != m['model']:
+            return 'CORR: %s: real %s, model %s' % (case['op'], real, m['model'])
+        return None
     if m.get('model') is None:
         return 'MACHINERY: generated an out-of-domain case (cluster not in id list)'
     if m.get('model_eq_spec') is False:
@@ -129,6 +205,10 @@ def judge(case, impl_res, ans):
             impl_res['raised'], impl_res['msg'], impl_res['where'])
     arr = impl_res['ok']['arr']
     if case['op'] == 'ccg':
+        # the integers the Lean model derives from the exact rational inputs are the generator's
+        if m['samples'] != case['t'] or m['binsize'] != case['bin'] or m['winsize'] != 2 * case['half'] + 1:
+            return 'MACHINERY: the Lean model of the float conversions (%s, %s, %s) differs from the generated integers' % (
+                m['samples'][:5], m['binsize'], m['winsize'])
         exp = oracle_ccg(case)
         if exp != m['model']:
             return 'MACHINERY: python oracle differs from the Lean model'
@@ -143,22 +223,48 @@ def judge(case, impl_res, ans):
             return 'SPEC: the same correlogram call gave a different result the second time'
         return None
     if case['op'] == 'firing':
-        f = case['bs'] / (case['dur'] or 1.)
-        exp = [[float(v) * f for v in row] for row in m['model']]
-        if arr != exp:
-            return 'SPEC: firing-rate normaliser differs from outer(counts)*bin/duration'
+        # the model's exact rationals count_i*count_j*bin/duration
+        qs = [[DC.to_fraction(v) for v in row] for row in m['model']]
+        fq = Fraction(case['bs']) / (Fraction(case['dur']) if case['dur'] else 1)
+        exact_dom = _is_float(fq) and all(_is_float(v) for row in qs for v in row)
+        if len(arr) != len(qs) or any(len(a) != len(b) for a, b in zip(arr, qs)):
+            return 'SPEC: firing-rate normaliser has the wrong shape'
+        for ra, rq in zip(arr, qs):
+            for a, v in zip(ra, rq):
+                e = float(v)
+                if (a != e) if exact_dom else (abs(a - e) > 2.0 ** -40 * max(1., abs(e))):
+                    return 'SPEC: firing-rate normaliser differs from outer(counts)*bin/duration'
         return None
 
 
 def nontrivial(case):
     if case['op'] == 'firing':
         return len(case['sc']) > 1
+    if case['op'] in ('increment', 'diff_shifted', 'create'):
+        return True
     t, B, h = case['t'], case['bin'], case['half']
     return any((t[i + 1] - t[i]) // B <= h for i in range(len(t) - 1))
 
 
 def tally(rep, case, impl_res, ans):
     rep.count('op:' + case['op'])
+    if case['op'] in ('increment', 'diff_shifted', 'create'):
+        ok = impl_res.get('ok') or {}
+        if 'missing' in ok:
+            rep.count('helper missing: ' + ok['missing'])
+        if case.get('ood'):
+            rep.count('diff_shifted with steps > len (outside the loop): real %s, model %s' % (
+                'ValueError' if 'valueerror' in ok else ok.get('arr'), (ans.get('ok') or {}).get('model')))
+        return
+    if case['op'] == 'firing':
+        rep.count('firing ids:%s dur:%s' % ('None' if case.get('ids') is None else 'given', case['dur']))
+    if case['op'] == 'ccg':
+        if case.get('wmult') is not None:
+            rep.count('window = %s bins' % ('even' if case['wmult'] == 2 * case['half'] else 'fractional'))
+        if case.get('binfrac'):
+            rep.count('bin = whole + fraction of a sample')
+        if case['t'] and case['t'][0] < 0:
+            rep.count('negative times')
     if case['op'] == 'ccg':
         rep.count('n:%s' % (len(case['t']) if len(case['t']) <= 6 else '7+'))
         rep.count('sym:%s' % case['sym'])
@@ -201,7 +307,7 @@ def shrink(case):
             c = dict(case); c['half'] = case['half'] - 1; yield c
         if case['sym']:
             c = dict(case); c['sym'] = False; yield c
-    else:
+    elif case['op'] == 'firing':
         n = len(case['sc'])
         for i in range(n):
             c = dict(case); c['sc'] = case['sc'][:i] + case['sc'][i + 1:]
@@ -227,6 +333,14 @@ def gen(tier, rng):
                         c['ids'] = ids
                     if n == 0:
                         c['ids'] = [0, 1]
+                    # windows that are an even / a fractional multiple of the bin (same half window), bins that are
+                    # not a whole number of samples (the code truncates), negative times
+                    if (cnt // 5) % 3 == 1:
+                        c['wmult'] = [2 * h, 2 * h + 1.75, 2 * h + 0.5][cnt % 3] if h > 0 else [1.5, 1.75][cnt % 2]
+                    if cnt % 7 == 2:
+                        c['binfrac'] = [0.5, 0.25][cnt % 2]
+                    if cnt % 11 == 3:
+                        c['t'] = [v - 3 for v in c['t']]
                     if exact(c):
                         yield c
     # firing rates
@@ -235,11 +349,27 @@ def gen(tier, rng):
             for ids in ([0, 1, 2], [2, 0, 1], [1, 5, 0, 2], None):
                 if n == 0 and ids is None:
                     continue
-                c = dict(p=PID, op='firing', sc=list(sc), bs=0.5, dur=(0, 3.0, 7.0)[n % 3])
+                k = sum(sc) + n
+                c = dict(p=PID, op='firing', sc=list(sc), bs=(0.5, 0.375, 0.1)[k % 3], dur=(0, 3.0, 7.0, None, 4.0, 0.25)[k % 6])
                 if ids is not None:
                     c['ids'] = ids
                     c['idbase'] = [0, 0, 1000001][(n + len(ids)) % 3]
                 yield c
+    # the helpers on small arrays (exhaustive)
+    for n in range(0, 5):
+        for arr in itertools.product(range(-1, 2), repeat=n):
+            for steps in range(0, n + 3):
+                c = dict(p=PID, op='diff_shifted', arr=list(arr), steps=steps)
+                if steps > n:
+                    c['ood'] = True
+                yield c
+    for L in range(0, 5):
+        for k in range(0, 4):
+            for idx in itertools.product(range(0, 6), repeat=k):
+                yield dict(p=PID, op='increment', arr=[(7 * i + k) % 4 for i in range(L)], idx=list(idx))
+    for nc in range(0, 4):
+        for ws in (1, 3, 5, 9):
+            yield dict(p=PID, op='create', nc=nc, winsize=ws)
     # spike counts whose pairwise products exceed 2^31 (a 14 Hz unit over one hour)
     big = [[50000, 47000], [46341, 46341, 5]] if q else [[50000, 47000], [46341, 46341, 5], [70000, 3, 31000],
                                                           [46340, 46342], [100000], [65536, 65536, 65537]]
@@ -266,6 +396,8 @@ def gen(tier, rng):
             c['idskind'] = rng.pick(['list', 'array', 'array32'])
             if c['idskind'] != 'list' and rng.random() < .5:
                 c['pre_ids'] = rng.sample(c['ids'], len(c['ids']))
+        if rng.random() < .2:
+            c['timeskind'] = 'list'
         if c['dtype'] == 'int64' and rng.random() < .3:
             c['idbase'] = rng.pick([1000, 1000000, 5000000])    # large cluster ids
         if rng.random() < .25:
